@@ -2186,6 +2186,8 @@ def _index_values_at(f: FuncInfo, var: str, hay: str, at: ast.AST) -> frozenset 
     if target is None:
         return None
     OTHER = frozenset({"other"})
+    HAS_DOT, YES, NO, BOTH = "<'.' in name>", frozenset({"yes"}), frozenset({"no"}), frozenset({"yes", "no"})
+    WHOLE = "<results of whole-name searches>"  # the locals that hold the result of `name.find(".")` / `name.rfind(".")` without bounds
     seen_at: list = [None]
     poisoned = {n_ for x in ast.walk(fn) if isinstance(x, (ast.Nonlocal, ast.Global)) for n_ in x.names}  # (changed behind our back)
     if var in poisoned:
@@ -2199,7 +2201,9 @@ def _index_values_at(f: FuncInfo, var: str, hay: str, at: ast.AST) -> frozenset 
             return b
         if b is None:
             return a
-        return {k: a.get(k, OTHER) | b.get(k, OTHER) for k in set(a) | set(b)}
+        out = {k: a.get(k, BOTH if k == HAS_DOT else OTHER) | b.get(k, BOTH if k == HAS_DOT else OTHER) for k in set(a) | set(b) if k != WHOLE}
+        out[WHOLE] = a.get(WHOLE, frozenset()) & b.get(WHOLE, frozenset())
+        return out
 
     def can(kind: str, op: type, k: int, want: bool) -> bool:
         """Some value of this kind makes `value <op> k` evaluate to `want`."""
@@ -2218,7 +2222,7 @@ def _index_values_at(f: FuncInfo, var: str, hay: str, at: ast.AST) -> frozenset 
         """Assignment expressions somewhere inside `e` (weak update: they may or may not have been evaluated)."""
         for x in ast.walk(e):
             if isinstance(x, ast.NamedExpr) and isinstance(x.target, ast.Name):
-                env = {**env, x.target.id: get(env, x.target.id) | value(x.value, env)[0]}
+                env = {**env, x.target.id: get(env, x.target.id) | value(x.value, env)[0], WHOLE: env.get(WHOLE, frozenset()) - {x.target.id}}
             elif isinstance(x, (ast.ListComp, ast.SetComp, ast.DictComp, ast.GeneratorExp)):
                 for g in x.generators:  # (a comprehension variable of the same name is another variable: nothing is known about loads of it)
                     for t in ast.walk(g.target):
@@ -2226,11 +2230,14 @@ def _index_values_at(f: FuncInfo, var: str, hay: str, at: ast.AST) -> frozenset 
                             env = {**env, t.id: OTHER}
         return env
 
+    def is_whole_search(v: ast.expr) -> bool:
+        return isinstance(v, ast.Call) and isinstance(v.func, ast.Attribute) and norm(v.func.value) == hay and len(v.args) == 1 and not v.keywords and _const_str(v.args[0]) == "." and v.func.attr in ("find", "rfind")
+
     def value(v: ast.expr, env: dict) -> tuple[frozenset, dict]:
         """(kinds of the value of `v`, environment after evaluating it)."""
         if isinstance(v, ast.NamedExpr) and isinstance(v.target, ast.Name):
             k, env = value(v.value, env)
-            return k, {**env, v.target.id: k}
+            return k, assign(v.target, k, env, whole=is_whole_search(v.value))
         if isinstance(v, ast.Name):
             return get(env, v.id), env
         if isinstance(v, ast.IfExp):
@@ -2241,7 +2248,11 @@ def _index_values_at(f: FuncInfo, var: str, hay: str, at: ast.AST) -> frozenset 
             out = join_env(ea, eb)
             return ka | kb, out if out is not None else env
         if isinstance(v, ast.Call) and isinstance(v.func, ast.Attribute) and norm(v.func.value) == hay and v.args and _const_str(v.args[0]) == "." and v.func.attr in SEARCH_METHODS:
-            return frozenset({"neg", "sep"} if v.func.attr in ("find", "rfind") else {"sep"}), bind_walrus(v, env)
+            k = {"neg", "sep"} if v.func.attr in ("find", "rfind") else {"sep"}
+            if len(v.args) == 1 and not v.keywords:  # the whole name is searched: `"." in name` was possibly decided before
+                dot = env.get(HAS_DOT, BOTH)
+                k = k - ({"neg"} if dot == YES else set()) - ({"sep"} if dot == NO else set())
+            return frozenset(k), bind_walrus(v, env)
         if isinstance(v, ast.Call) and isinstance(v.func, ast.Name) and v.func.id == "len" and len(v.args) == 1 and not v.keywords and norm(v.args[0]) == hay:
             return frozenset({"len"}), env
         if isinstance(v, ast.Call) and isinstance(v.func, ast.Name) and v.func.id == "max" and len(v.args) == 2 and not v.keywords and any(isinstance(a, ast.Constant) and a.value == 0 and not isinstance(a.value, bool) for a in v.args):
@@ -2282,6 +2293,22 @@ def _index_values_at(f: FuncInfo, var: str, hay: str, at: ast.AST) -> frozenset 
         if isinstance(test, ast.Name) and test.id in env and test.id not in poisoned:  # truthiness of an index
             kept = frozenset(k for k in env[test.id] if not ((k == "zero" and want) or (k == "neg" and not want)))
             return {**env, test.id: kept} if kept else None
+        dot_test = None  # does the test say whether the name holds a separator at all?
+        if isinstance(test, ast.Compare) and len(test.ops) == 1 and isinstance(test.ops[0], (ast.In, ast.NotIn)) and _const_str(test.left) == "." and norm(test.comparators[0]) == hay:
+            dot_test = isinstance(test.ops[0], ast.In)
+        elif isinstance(test, ast.Call) and isinstance(test.func, ast.Attribute) and test.func.attr == "count" and norm(test.func.value) == hay and len(test.args) == 1 and _const_str(test.args[0]) == ".":
+            dot_test = True
+        if dot_test is not None:
+            has = dot_test is want
+            if env.get(HAS_DOT, BOTH) == (NO if has else YES):
+                return None
+            env = {**env, HAS_DOT: YES if has else NO}
+            for w in env.get(WHOLE, frozenset()):  # results of earlier searches of the whole name
+                kept = env[w] - ({"neg"} if has else {"sep"})
+                if not kept:
+                    return None
+                env[w] = kept
+            return env
         if isinstance(test, ast.Compare) and len(test.ops) == 1:
             l, op, r = test.left, type(test.ops[0]), test.comparators[0]
             for x, y, flip in ((l, r, False), (r, l, True)):
@@ -2301,9 +2328,13 @@ def _index_values_at(f: FuncInfo, var: str, hay: str, at: ast.AST) -> frozenset 
                 break
         return bind_walrus(test, env)
 
-    def assign(t: ast.expr, kinds: frozenset | None, env: dict) -> dict:
+    def assign(t: ast.expr, kinds: frozenset | None, env: dict, whole: bool = False) -> dict:
         if isinstance(t, ast.Name):
-            return {**env, t.id: kinds if kinds is not None else OTHER}
+            if t.id == hay:  # the searched name itself changes: positions in it and its length are stale
+                env = {k: (v if not (v & {"sep", "len"}) else OTHER) for k, v in env.items() if k not in (HAS_DOT, WHOLE)}
+            env = {**env, t.id: kinds if kinds is not None else OTHER}
+            env[WHOLE] = env.get(WHOLE, frozenset()) - {t.id} | ({t.id} if whole else frozenset())
+            return env
         for x in ast.walk(t):
             if isinstance(x, ast.Name) and isinstance(x.ctx, ast.Store):
                 env = {**env, x.id: OTHER}
@@ -2361,7 +2392,7 @@ def _index_values_at(f: FuncInfo, var: str, hay: str, at: ast.AST) -> frozenset 
                 return env, None, None
             k, env = value(s.value, env)
             for t in tgts:
-                env = assign(t, k, env)
+                env = assign(t, k, env, whole=is_whole_search(s.value))
             return env, None, None
         if isinstance(s, ast.AugAssign):
             env = bind_walrus(s.value, env)
@@ -2396,7 +2427,7 @@ def _index_values_at(f: FuncInfo, var: str, hay: str, at: ast.AST) -> frozenset 
                     k = OTHER
                     if isinstance(st_, (ast.Assign, ast.AnnAssign, ast.NamedExpr)) and getattr(st_, "value", None) is not None and (x is getattr(st_, "target", None) or x in getattr(st_, "targets", [])):
                         k = _try_value(st_.value)
-                    mid = {**mid, x.id: get(mid, x.id) | k}
+                    mid = {**mid, x.id: get(mid, x.id) | k, WHOLE: mid.get(WHOLE, frozenset()) - {x.id}}
             e_out, e_b, e_c = block(s.orelse, out)
             res, rb, rc = e_out, join_env(b, e_b), join_env(c, e_c)
             for h in s.handlers:
